@@ -84,6 +84,8 @@ var c13Fragments = []fragment{
 	{`return 1`, true, "missing semicolon after return"},
 	{`function h(#) { w = 1; }`, true, "illegal character in parameter list"},
 	{`foreach # in q { w = 1; }`, true, "illegal character as loop variable"},
+	{`++;`, true, "postfix operator without a variable"}, {`5++;`, true, "postfix operator on a non-variable"}, {`q[0]--;`, true, "postfix operator on a non-variable"},
+	{`foreach z in q w v1 = 1; }`, true, "foreach body without an opening brace"}, {`foreach z in q ( v1 = 1; }`, true, "foreach body without an opening brace"},
 	{`)`, true, "stray closer"}, {`]`, true, "stray closer"}, {`}`, true, "stray closer"},
 }
 
